@@ -287,6 +287,13 @@ func (f *file) Write(p []byte) (n int, err error) {
 }
 
 func (f *file) WriteBlob(p blob.Blob) (n int, err error) {
+	if err := f.closedErr("write"); err != nil {
+		return 0, err
+	}
+	if f.flag&hackpadfs.FlagAppend != 0 && p.Len() > 0 {
+		// an appending write happens at the end of the file and leaves the offset after the written bytes
+		f.offset = f.currentSize()
+	}
 	n, err = f.writeBlobAt("write", p, f.offset)
 	f.offset += int64(n)
 	return
